@@ -108,9 +108,33 @@ class EditRunner(G.Runner):
         except Outside:
             self.outside = True
 
+    def _via_app(self):
+        """every other call goes through the thin wrappers of `Ombott` (`add_route`, `on_route`,
+        `remove_route_hook`; `remove_route` has its own op) instead of the `RadiRouter` method"""
+        return len(self.ops) % 2 == 1
+
     def add(self, rule, methods, name=None, overwrite=False):
         idx = len(self.ops)
-        ans = super().add(rule, methods, name, overwrite)
+        if self._via_app():
+            # as `G.Runner.add`, through `Ombott.add_route`
+            bad = self._scan_filters(rule) if rule else []
+
+            def handler(**kw):
+                meth = self.app.request.environ.get('ombott.route')
+                self.calls.append((idx, getattr(meth, 'name', None), kw))
+                return 'h%d' % idx
+            try:
+                route = self.app.add_route(rule, methods, handler, name, overwrite=overwrite)
+                self.routes[idx] = route
+                ans = 'ok:' + hs(route.pattern)
+            except Exception as e:
+                ans = 'err:' + G.err_name(e)
+            cerr = ';'.join('%s=%s' % (hs(k), v) for k, v in bad) if bad else '~'
+            self.ops.append('A|%s|%s|%s|%d|%s' % (hs(rule), hsl([methods] if isinstance(methods, str) else methods),
+                                                  '~' if name is None else hs(name), 1 if overwrite else 0, cerr))
+            self.answers.append(ans)
+        else:
+            ans = super().add(rule, methods, name, overwrite)
         out = 'ok' if ans.startswith('ok') else ans[4:]
         self._spec(lambda sp: sp.add(rule, methods, name, overwrite, idx, out))
         return ans
@@ -175,7 +199,11 @@ class EditRunner(G.Runner):
         cerr = self._cerr(rule)
         hook = self.make_hook(idx, partial)
         try:
-            pat = core.with_timeout(lambda: self.router.add_hook(rule, hook, 1 if partial else 0))
+            if not partial and self._via_app():
+                core.with_timeout(lambda: self.app.on_route(rule, hook))       # returns nothing
+                pat = self.router.to_pattern(rule)
+            else:
+                pat = core.with_timeout(lambda: self.router.add_hook(rule, hook, 1 if partial else 0))
             self.hook_pattern[idx] = pat
             ans = 'ok:' + hs(pat)
         except core.Hang:
@@ -187,7 +215,8 @@ class EditRunner(G.Runner):
 
     def remove_hook(self, rule):
         cerr = self._cerr(rule)
-        ans = self._emit('XH|%s|%s' % (hs(rule), cerr), self._outcome(lambda: self.router.remove_hook(rule)))
+        rm = self.app.remove_route_hook if self._via_app() else self.router.remove_hook
+        ans = self._emit('XH|%s|%s' % (hs(rule), cerr), self._outcome(lambda: rm(rule)))
         self._spec(lambda sp: sp.remove_hook(rule, ans if ans == 'ok' else ans[4:]))
         return ans
 
@@ -291,8 +320,205 @@ class EditRunner(G.Runner):
             ans = 'diff:indexes'
         return self._emit('FS|%s|%s|%s' % (hsl(paths), hsl(methods), self._env_txt(env)), ans)
 
+    # -- listing / key-form probes (lean/OmbottModel/Drv/RouterListing.lean) ---------------------
+    def _fid(self, f):
+        if f is None:
+            return '~'
+        for k, v in self.FF._filter_cache.items():
+            if v[0] is f:
+                return hs(k)
+        raise core.Infra('filter handler not in the cache')
+
+    def _name_handlers(self):
+        """give every registered handler a printable identity: `str(handler)` is rewritten to
+        `h<id>` (see `_canon_text`), `handler_fullname` becomes `m.h<id>`"""
+        for rt in self.router.routes.values():
+            for rm in rt.methods.values():
+                fn = rm.handler
+                fn.__module__ = 'm'
+                fn.__qualname__ = 'h%d' % self._hid_of(fn)
+
+    @staticmethod
+    def _canon_text(t):
+        return re.sub(r'<function (h\d+) at 0x[0-9a-fA-F]+>', r'\1', t)
+
+    def observe_path(self, path):
+        """what a consumer reads off one yielded node path (independent of the model: plain
+        indexing of the list nodes)"""
+        from ombott.router.radidict import KEY, PARAMS, FILTER, HOOKS, DATA
+        pat = ''.join(n[KEY] for n in path[1:])
+        flt = [n[FILTER] for n in path[1:] if n[KEY] == G.TOKEN]
+        last = path[-1]
+        return pat, flt, list(last[PARAMS]), last[DATA], last[HOOKS]
+
+    def list_iter(self, startswith='', yield_hooks=False):
+        rd = self.router.radidict
+        paths = core.with_timeout(lambda: list(rd._routes_iter(startswith=startswith or None, yield_hooks=yield_hooks)))
+        out = []
+        for path in paths:
+            pat, flt, keys, data, hooks = self.observe_path(path)
+            fl = ','.join(self._fid(f) for f in flt) if flt else '-'
+            d = '~' if data is None else self.show_route(data)
+            hk = '~' if not hooks else '%s.%s' % ('~' if hooks[0] is None else hooks[0].hid, '~' if hooks[1] is None else hooks[1].hid)
+            out.append('%s/%s/%s/%s/%s' % (hs(pat), fl, hsl(keys), d, hk))
+        return self._emit('LI|%s|%d' % (hs(startswith), 1 if yield_hooks else 0), ';'.join(out) or '~')
+
+    def list_dicts(self):
+        return self._emit('LR', 'routes=%s;named=%s' % (hsl(list(self.app.routes)), hsl(list(self.router.named_routes))))
+
+    def list_text(self):
+        from ombott.router.radidict import DATA
+        self._name_handlers()
+        lines = []
+        for path in self.router.radidict._routes_iter():
+            rt = path[-1][DATA]
+            lines.append(repr(rt))
+            for m in (rt.methods.values() if rt is not None else ()):
+                lines += [repr(m), str(m), m.handler_fullname]
+        return self._emit('LS', hs(self._canon_text('\n'.join(lines))))
+
+    @staticmethod
+    def enc_atom(v):
+        if v is None:
+            return 'N'
+        if isinstance(v, str):
+            return 'S' + hs(v)
+        return 'I1' if v else 'I0'
+
+    @classmethod
+    def enc_key(cls, key):
+        """key forms: ('n', name) | ('s', [atoms]) | ('d', [(k, v)]) | ('k', rule, pattern) | ('o', object)"""
+        k = key[0]
+        if k == 'n':
+            return 'n.' + hs(key[1])
+        if k == 's':           # a set: equal elements collapse
+            return 's:' + ','.join(cls.enc_atom(a) for a in dict.fromkeys(key[1]))
+        if k == 'd':           # a dict: a repeated key keeps its first position and last value
+            return 'd:' + ','.join('%s=%s' % (cls.enc_atom(a), cls.enc_atom(b)) for a, b in dict((a, b) for a, b in key[1]).items())
+        if k == 'k':
+            return 'k:%s:%s' % (cls.enc_atom(key[1]), cls.enc_atom(key[2]))
+        return 'o'
+
+    @staticmethod
+    def make_key(key):
+        from ombott.router.radirouter import RouteKey
+        k = key[0]
+        if k == 'n':
+            return key[1]
+        if k == 's':
+            return set(key[1])
+        if k == 'd':
+            return dict((a, b) for a, b in key[1])
+        if k == 'k':
+            return RouteKey(key[1], pattern=key[2])
+        return OTHER_KEYS[key[1]]
+
+    @staticmethod
+    def key_rule(key):
+        """the rule text a key form carries (for the filters it may ask `make_filter` to build)"""
+        k = key[0]
+        if k == 's' and len(key[1]) == 1 and isinstance(key[1][0], str):
+            return key[1][0]
+        if k == 'd' and len(key[1]) == 1 and key[1][0][0] == 'rule' and isinstance(key[1][0][1], str):
+            return key[1][0][1]
+        if k == 'k' and isinstance(key[1], str):
+            return key[1]
+        return None
+
+    def lookup_key(self, key):
+        """`router[key]` (the route, or raises)"""
+        return core.with_timeout(lambda: self.router[self.make_key(key)])
+
+    def by_key(self, key):
+        rule = self.key_rule(key)
+        cerr = self._cerr(rule) if rule else '~'
+        try:
+            ans = self.show_route(self.lookup_key(key))
+        except core.Hang:
+            raise
+        except Exception as e:
+            ans = 'err:' + G.err_name(e)
+        return self._emit('LK|%s|%s' % (self.enc_key(key), cerr), ans)
+
+    def clash_text(self, rule):
+        """text of the RadiDictKeyError a registration of `rule` meets (read-only: `_match` tells
+        whether `add` would stop at a filter clash, which it does before touching the tree)"""
+        from ombott.router.radidict import MismatchType, RadiDictKeyError
+        if not G.in_domain(rule):
+            return None
+        cerr = self._cerr(rule)
+        try:
+            route = self.Route(rule)
+        except Exception as e:
+            return self._emit('LE|%s|%s' % (hs(rule), cerr), 'err:' + G.err_name(e))
+        rd = self.router.radidict
+        mm = rd._match(route.pattern, param_filters=route.filters)[1]
+        ans = 'none'
+        if mm == MismatchType.FILTER:
+            try:
+                rd.add(route.pattern, route, route.params_signature())
+                raise core.Infra('clash probe changed the tree')
+            except RadiDictKeyError as e:
+                ans = hs(str(e))
+        return self._emit('LE|%s|%s' % (hs(rule), cerr), ans)
+
+    def method_clash_text(self, rule, methods):
+        idx = len(self.ops)
+        cerr = self._cerr(rule)
+        from ombott.router.errors import RouteMethodError
+        try:
+            rt = self.router[{rule}]
+        except Exception:
+            rt = None
+        if rt is None:
+            ans = 'noroute'
+        else:
+            self._name_handlers()
+
+            def cand():
+                pass
+            cand.__module__ = 'm'
+            cand.__qualname__ = 'h%d' % idx
+            try:
+                rt._raise_if_registered(list(methods), cand)
+                ans = 'none'
+            except RouteMethodError as e:
+                ans = hs(self._canon_text(str(e)))
+        return self._emit('LC|%s|%s|%s' % (hs(rule), hsl(methods), cerr), ans)
+
+    def render(self, pattern, names):
+        return self._emit('LP|%s|%s' % (hs(pattern), hsl(names)),
+                          hs(self.router.radidict._render_route(pattern, list(names))))
+
+    def unpack(self, rule):
+        cerr = self._cerr(rule)
+        try:
+            ex, fl, keys = self.router.radidict.params_unpack(self.Route(rule).params_signature())
+            ans = '%s/%s/%s' % (hsl(keys), ','.join(self._fid(f) for f in fl) if fl else '-',
+                                ','.join('1' if e else '0' for e in ex) if ex else '-')
+        except Exception as e:
+            ans = 'err:' + G.err_name(e)
+        return self._emit('LU|%s|%s' % (hs(rule), cerr), ans)
+
+    def remove_route(self, rule=None, name=None, pattern=None):
+        """`Ombott.remove_route(rule, route_pattern=pattern, name=name)`"""
+        cerr = self._cerr(rule) if rule else '~'
+        ans = self._outcome(lambda: self.app.remove_route(rule, route_pattern=pattern, name=name))
+        out = ans if ans == 'ok' else ans[4:]
+        if rule is not None:
+            self._spec(lambda sp: sp.remove_rule(rule, out))
+        elif name is not None:
+            self._spec(lambda sp: sp.remove_name(name, out))
+        elif pattern is not None:
+            self._spec(lambda sp: sp.remove_pattern(pattern, out))
+        o = lambda v: '~' if v is None else hs(v)
+        return self._emit('WX|%s|%s|%s|%s' % (o(rule), o(name), o(pattern), cerr), ans)
+
+    LISTING_OPS = ('LI', 'LR', 'LS', 'LK', 'LE', 'LC', 'LP', 'LU', 'WX')
+
     def line(self):
-        return 'redit hist ' + ' '.join(self.ops)
+        area = 'rlist' if any(op.split('|')[0] in self.LISTING_OPS for op in self.ops) else 'redit'
+        return area + ' hist ' + ' '.join(self.ops)
 
 
 def play(run, ops):
@@ -325,11 +551,33 @@ def play(run, ops):
             run.get(op[1])
         elif k == 'FS':
             run.fresh_same(op[1], op[2])
+        elif k == 'LI':
+            run.list_iter(op[1], op[2])
+        elif k == 'LR':
+            run.list_dicts()
+        elif k == 'LS':
+            run.list_text()
+        elif k == 'LK':
+            run.by_key(op[1])
+        elif k == 'LE':
+            run.clash_text(op[1])
+        elif k == 'LC':
+            run.method_clash_text(op[1], op[2])
+        elif k == 'LP':
+            run.render(op[1], op[2])
+        elif k == 'LU':
+            run.unpack(op[1])
+        elif k == 'WX':
+            run.remove_route(op[1], op[2], op[3])
         else:
             raise core.Infra('unknown op %r' % (op,))
 
 
-EDIT_KINDS = ('A', 'X', 'XN', 'H', 'XH')
+EDIT_KINDS = ('A', 'X', 'XN', 'H', 'XH', 'WX')
+
+#: keys that are neither str, set nor dict (`('o', name)` in a key form)
+OTHER_KEYS = {'tuple': ('/a',), 'tuple0': (), 'list': ['/a'], 'frozenset': frozenset(['/a']), 'int': 5, 'zero': 0,
+              'none': None, 'bytes': b'/a', 'float': 1.5}
 
 
 # ---------------------------------------------------------------------------------------------
@@ -410,17 +658,121 @@ def gen_probes(rng, U, edits, full):
     return out
 
 
+def parse_pattern(rule):
+    """pattern string of a rule text (pure: `Route.parse_rule`), None when it does not parse"""
+    from ombott.router.radirouter import Route
+    try:
+        return Route.parse_rule(rule)[0]
+    except Exception:
+        return None
+
+
+def gen_key(rng, rules, pats):
+    """one key form for `router[key]`: mostly the accepted forms over live rules / patterns, and
+    every malformed shape"""
+    rule = rng.choice(rules) if rules and rng.random() < .85 else rng.choice(G.MALFORMED + ['', 'a', '/zz', '/'])
+    pat = rng.choice(pats) if pats and rng.random() < .8 else rng.choice(['', '/a', 'zz', 'a/\r', '\r', 'a'])
+    if rng.random() < .15 and pat:
+        pat = pat[:rng.randint(0, len(pat))]
+    r = rng.random()
+    if r < .12:
+        return ['n', rng.choice(NAMES + ['zz', ''])]
+    if r < .27:
+        return ['s', [rule]]
+    if r < .39:
+        return ['d', [['rule', rule]]]
+    if r < .49:
+        return ['k', rule, None]
+    if r < .61:
+        return ['d', [['pattern', pat]]]
+    if r < .68:
+        return ['d', [['route_pattern', pat]]]
+    if r < .78:
+        return ['k', None, pat]
+    other = rules[0] if rules else '/b'
+    return rng.choice([
+        ['s', []], ['s', [rule, other + 'x']], ['s', [None]], ['s', [5]], ['s', [0]], ['s', [rule, None]],
+        ['d', []], ['d', [['rule', rule], ['pattern', pat]]], ['d', [['pattern', pat], ['route_pattern', pat]]],
+        ['d', [['filters', None]]], ['d', [['filters', 'x']]], ['d', [['filters', 0]]], ['d', [['get_hooks', 1]]],
+        ['d', [['get_hooks', None]]], ['d', [['foo', 'x']]], ['d', [[None, 'x']]], ['d', [[3, 'x']]], ['d', [[0, rule]]],
+        ['d', [['pattern', None]]], ['d', [['pattern', 0]]], ['d', [['pattern', 7]]], ['d', [['rule', None]]],
+        ['d', [['rule', 0]]], ['d', [['rule', 3]]], ['d', [['route_pattern', None]]], ['d', [['route_pattern', 2]]],
+        ['k', None, None], ['k', '', None], ['k', rule, pat], ['k', '', pat], ['k', 0, pat], ['k', 1, None],
+        ['k', rule, 0], ['k', None, 0], ['k', None, 4], ['k', 0, None],
+    ] + [['o', k] for k in sorted(OTHER_KEYS)])
+
+
+def gen_listing_probes(rng, U, edits, full):
+    """probes of the enumeration / printing / key-form model (Drv/RouterListing.lean)"""
+    rules, pats = [], []
+    for op in edits:
+        if op[0] in ('A', 'H', 'X', 'XH') and not op[1].endswith('*') and op[1] not in rules:
+            rules.append(op[1])
+            p = parse_pattern(op[1])
+            if p is not None and p not in pats:
+                pats.append(p)
+    out = [['LI', '', rng.random() < .4]]
+    for _ in range(2 if full else 1):
+        sw = rng.choice(pats) if pats and rng.random() < .85 else rng.choice(['a', 'zz', '\r', 'a/\r/', 'ab'])
+        sw = sw[:rng.randint(0, len(sw))] if rng.random() < .7 else sw
+        out.append(['LI', sw, rng.random() < .4])
+    out.append(['LR'])
+    if full or rng.random() < .3:
+        out.append(['LS'])
+    for _ in range(rng.randint(4, 8) if full else rng.randint(1, 3)):
+        out.append(['LK', gen_key(rng, rules, pats)])
+    dom = [r for r in rules if G.in_domain(r)]
+    for _ in range(2 if full else 1):
+        if dom and rng.random() < .8:
+            out.append(['LE', rng.choice(dom) if rng.random() < .5 else U.rule(rng)])
+        if rules and rng.random() < .7:
+            out.append(['LC', rng.choice(rules), [rng.choice(['GET', 'POST', 'ANY', 'PUT'])] * rng.choice([1, 1, 2])])
+    if rng.random() < .6:
+        pat = rng.choice(pats) if pats and rng.random() < .8 else 'a/\r/\r\rb'
+        n = pat.count('\r') + rng.choice([0, 0, 0, -1, 1])
+        names = [rng.choice(['x', 'y', 'id', '', 'anon-0', 'é', 'a\rb', 'n_1']) for _ in range(max(n, 0))]
+        out.append(['LP', pat, names])
+    if rules and rng.random() < .5:
+        out.append(['LU', rng.choice(rules)])
+    return out
+
+
+def gen_wrapper_removal(rng, U, edits):
+    """`Ombott.remove_route` in its three argument forms (and mixed)"""
+    pats = [p for p in (parse_pattern(op[1]) for op in edits if op[0] == 'A') if p is not None]
+    pat = rng.choice(pats) if pats and rng.random() < .8 else rng.choice(['zz', 'a', ''])
+    if rng.random() < .25:
+        pat = pat[:rng.randint(0, len(pat))] + '*'
+    r = rng.random()
+    if r < .45:
+        return ['WX', None, None, pat]
+    if r < .6:
+        return ['WX', U.rule(rng), None, None]
+    if r < .72:
+        return ['WX', None, rng.choice(NAMES), None]
+    if r < .82:
+        return ['WX', U.rule(rng), rng.choice(NAMES), pat]
+    if r < .95:
+        return ['WX', None, rng.choice(NAMES), pat]
+    return ['WX', None, None, None]
+
+
 def gen_history(rng, max_edits=40, kind=None):
     U = Universe(rng, kind)
     n = rng.choice([3, 6, 10, 15, 20, 30, max_edits])
     ops, edits = [], []
+    listing = rng.random() < .6
     for i in range(n):
-        e = gen_edit(rng, U)
+        e = gen_wrapper_removal(rng, U, edits) if listing and rng.random() < .06 else gen_edit(rng, U)
         ops.append(e)
         edits.append(e)
         if rng.random() < .25:
             ops += gen_probes(rng, U, edits, False)
+            if listing and rng.random() < .5:
+                ops += gen_listing_probes(rng, U, edits, False)
     ops += gen_probes(rng, U, edits, True)
+    if listing:
+        ops += gen_listing_probes(rng, U, edits, True)
     paths = [op[1] for op in ops if op[0] == 'P'] + [op[2] for op in ops if op[0] == 'V']
     ops.append(['FS', sorted(set(paths))[:12], rng.choice([['GET', 'ANY'], ['POST', 'ANY']])])
     return ops, U
@@ -518,6 +870,12 @@ class Spec:
         if outcome != 'ok':
             return
         pat, _ = self.parse(rule)
+        self.remove_pattern(pat, outcome)
+
+    def remove_pattern(self, pat, outcome):
+        """`remove_route(route_pattern=pat)`: the pattern string as it is"""
+        if outcome != 'ok':
+            return
         if pat.endswith('*'):
             pre = pat[:-1]
             gone = {p for p in self.routes if p.startswith(pre)}
